@@ -148,6 +148,16 @@ def props_snapshot(props):
     return out
 
 
+def scalar_image(x):
+    """Comparable image of one value obtained by integer indexing."""
+    if hasattr(x, 'seconds') and hasattr(x, 'second_fractions'):
+        return ('ts', int(x.seconds), int(x.second_fractions))
+    if isinstance(x, str):
+        return ('str', x)
+    a = np.asarray(x)
+    return ('num', norm_dtype(a.dtype), a.tobytes())
+
+
 # ------------------------------------------------------------------------- whole-file snapshot
 def channel_full(ch):
     """Full data of a channel, tolerant of the untyped/zero-length corner (returns None when the
@@ -169,6 +179,11 @@ def snapshot(tf, with_data=True, scaled=True):
                     ent['data'] = image(d) if not isinstance(d, dict) else {k: image(v) for k, v in sorted(d.items())}
                 except Exception as ex:   # recorded, compared like any other observation
                     ent['data'] = ('raises', type(ex).__name__)
+                if scaled and len(c):
+                    try:
+                        ent['ends'] = (scalar_image(c[0]), scalar_image(c[-1]))
+                    except Exception as ex:
+                        ent['ends'] = ('raises', type(ex).__name__)
             snap['channels'][c.path] = ent
     return snap
 
